@@ -184,8 +184,11 @@ def run(rep: Report, tier: str) -> None:  # noqa: C901
     transp.state_discipline(P, rep, "R02.4", only_attrs={"_in_clause", "_current_dataset", "_column_prefix"}, parts="b")
     n_scope = transp.scope_coverage(P, rep, "R02.4", only={"visit_RegularAggregation_calc", "visit_RegularAggregation_filter", "visit_RegularAggregation_sub"})
     rep.floor("R02.4 clause expressions translated", n_scope, 2)
+    # ---- R02.5 the builder the clause handlers rely on (real class, evaluated) ----
+    rep.rule("R02.5", "SQLBuilder: every where() condition reaches the WHERE clause (conjunction) - the real class evaluated by E6")
+    transp.builder_contract(P, rep, "R02.5", parts="w")
     rep.assumptions = ["abstract structures: names and roles only; expressions inside calc/filter are opaque", "SQL: WHERE keeps the rows for which its predicate is TRUE",
-                       "SQLBuilder is modelled as an accumulator of select/from/where (sql_builder.py read once: select extends, where appends with AND)"]
+                       "inside the clause handlers SQLBuilder is a recording stand-in; that the real class conjoins its where() conditions is decided by R02.5"]
 
 
 def _role_tokens(P: Program) -> Dict[str, str]:
